@@ -76,6 +76,15 @@ CFG = {
         labels=[],
         install=True,
     ),
+    "elements-only": dict(
+        # only the element list is configured (naunet new / Network(elements=[...])): no labels, no markers at all
+        elements=["e", "H", "D", "He", "C", "N", "O", "Si", "S"],
+        pseudo=[],
+        replacement={},
+        kwargs={},
+        labels=[],
+        install=True,
+    ),
     "upper-norepl": dict(
         elements=["E", "H", "D", "HE", "C", "N", "O", "MG", "SI", "S", "CL"],
         pseudo=["CR", "CRP", "PHOTON", "CRPHOT"],
@@ -86,7 +95,7 @@ CFG = {
     ),
 }
 PINNED = {"H": 1.0, "D": 2.0, "He": 4.0, "C": 12.0, "N": 14.0, "O": 16.0, "T": 3.0, "He3": 3.0}  # H..O pinned by the repo's tests; T, He3 = protons + neutrons of the isotope table
-FOREIGN = ["?", "_", " ", "!", "q", "z", "x", "%", "\t", "j"]
+FOREIGN = ["?", "_", " ", "!", "q", "z", "x", "%", "\t", "j", "o", "p", "m", "*", "M", "X", "g"]  # (the last seven are symbols of the *default* pseudo-element list only)
 
 
 def budget(tier):
@@ -97,7 +106,7 @@ def budget(tier):
 
 @st.composite
 def _case(draw):
-    cfg = draw(st.sampled_from(["default", "default", "upper", "leeds", "upper-norepl", "upper-G", "isotopes", "upper-partial"]))
+    cfg = draw(st.sampled_from(["default", "default", "upper", "leeds", "upper-norepl", "upper-G", "isotopes", "upper-partial", "elements-only"]))
     c = CFG[cfg]
     kind = draw(st.sampled_from(["mol"] * 8 + ["grain", "electron"]))
     case = {"cfg": cfg, "kind": kind, "tokens": [], "label": "", "surface": False, "group": 0, "charge": 0, "inject": None, "explicit1": []}
